@@ -126,7 +126,7 @@ type c07Store struct {
 	recreateAt int32
 	recreate   func(key string)
 	log        []string
-	mu       sync.Mutex
+	mu         sync.Mutex
 }
 
 func (s *c07Store) delFault(kind string, key []byte) error {
@@ -376,10 +376,10 @@ func runC07(c *harness.Case) {
 			continue
 		}
 		type mode struct {
-			name     string
-			from     bool
-			err      error
-			restart  bool
+			name    string
+			from    bool
+			err     error
+			restart bool
 		}
 		modes := []mode{{"fail-one-generic", false, errors.New("injected delete error"), false},
 			{"die-after", true, errors.New("injected: compactor dead"), true}}
